@@ -7,6 +7,7 @@ mod dispatch;
 mod exec;
 mod galloc;
 mod gen;
+mod isolate;
 mod minimize;
 mod parent;
 mod peer;
@@ -51,6 +52,7 @@ fn prop_cfg(prop: &str) -> Option<PropCfg> {
         "C07" => PropCfg { level: "exploration", quick_count: 3_000, thorough_count: 80_000, both_profiles: true, rule: "one run = one scenario x all four backends x a ladder of ~35 budgets (0..3, two random <33, geometric to 2^20, neighbourhood of the canonical back-edge count, 2^62 and 2^63-1 for halting programs); non-trivial iff canonical run has >=1 loop iteration and >=1 I/O event" },
         "C08" => PropCfg { level: "fault_enumeration", quick_count: 1_500, thorough_count: 40_000, both_profiles: false, rule: "one run = one scenario with a halting (or printing-divergent) canonical history; every single-fault plan is enumerated when the history has <=256 events (each input request failing, each output refused as Ok(0) and as Err, no reader, no writer), sampled otherwise, on all backends x 2 levels; non-trivial iff canonical run has >=1 loop iteration and >=1 I/O event" },
         "C10" => PropCfg { level: "exploration", quick_count: 6_000, thorough_count: 150_000, both_profiles: false, rule: "one run = one halting scenario executed with execute_unsafe on bcint and basejit at levels 0..3 inside a region pre-grown to excursion+program length+1 on each side and rounded to whole pages so that PROT_NONE pages touch both ends; non-trivial iff canonical run has >=1 loop iteration and >=1 I/O event" },
+        "C17" => PropCfg { level: "fault_enumeration", quick_count: 3_000, thorough_count: 80_000, both_profiles: false, rule: "one run = one halting roaming scenario x 4 backends; the fault-free run under the guard allocator counts the in-zone allocation requests N (tape growths, bcint context, threaded-code and other Vecs) and then request k is made to return null for every k in 1..=N (24 sampled if N>24), each in a forked child; non-trivial iff the failure fired" },
         _ => return None,
     })
 }
@@ -58,6 +60,9 @@ fn prop_cfg(prop: &str) -> Option<PropCfg> {
 fn main() {
     let args: Vec<String> = std::env::args().collect();
     let cmd = args.get(1).map(|s| s.as_str()).unwrap_or("help");
+    // A backtrace on abort would be symbolised inside the guard zone (thousands of guarded
+    // allocations, seconds of work) and tell us nothing; the harness never needs one.
+    std::env::set_var("RUST_BACKTRACE", "0");
     match cmd {
         "worker" => {
             worker::disable_aslr_and_reexec();
